@@ -312,6 +312,9 @@ macro_rules! ensure_vec_eq {
     }};
 }
 
+mod aux;
+mod large;
+
 struct Cfg {
     field: String,
     info: Info,
@@ -758,6 +761,19 @@ fn kind_rels<F: PrimeField, D: DomKind<F>>(out: &mut Vec<Rel>, field: &str, tier
     out.push(Rel::new(nm("vanish-lagrange"), q(200), 48, move |t, o| vanish_lagrange_rel::<F, D>(&c, t, o)).shrink_iters(600));
 }
 
+/// the remaining trait-provided entry points (short ifft, pointwise product, serialization; subdomain re-indexing),
+/// see `aux.rs`
+fn aux_rels<F: PrimeField, D: DomKind<F>>(out: &mut Vec<Rel>, field: &str, tier: Tier, small: u64) {
+    let info = info_of::<F>();
+    let kind = D::KIND;
+    let cfg = Arc::new(Cfg { field: field.to_string(), info, table: vec![], table_small: size_table(kind, &info, small), bound: 0 });
+    assert!(!cfg.table_small.is_empty());
+    let c = cfg.clone();
+    out.push(Rel::new(format!("aux/{}.{}", field, kind.name()), tier.pick(300, 4500), 96, move |t, o| aux::aux_rel::<F, D>(&c, t, o)).shrink_iters(400));
+    let c = cfg.clone();
+    out.push(Rel::new(format!("subdomain/{}.{}", field, kind.name()), tier.pick(240, 3600), 24, move |t, o| aux::subdomain_rel::<F, D>(&c, t, o)).shrink_iters(400));
+}
+
 fn root_rels<F: PrimeField>(out: &mut Vec<Rel>, field: &str, tier: Tier, bound: u64) {
     let info = info_of::<F>();
     let cfg = Arc::new(Cfg { field: field.to_string(), info, table: vec![], table_small: vec![], bound });
@@ -822,6 +838,31 @@ fn relations(tier: Tier) -> Vec<Rel> {
     mixed_field!(ark_curve25519::Fq, "curve25519.Fq", 2);
     mixed_field!(ark_bn254::Fr, "bn254.Fr", 3);
     mixed_field!(ark_bls12_381::Fq, "bls12_381.Fq", 2);
+    // trait-provided defaults and serialization (aux.rs) on a selection of field shapes
+    macro_rules! aux_field {
+        ($f:ty, $name:expr, $small:expr; $($d:ident),+) => {{
+            $( aux_rels::<$f, $d<$f>>(&mut out, $name, tier, $small); )+
+        }};
+    }
+    aux_field!(ark_test_curves::bls12_381::Fr, "test.bls12_381.Fr", 96; Radix2EvaluationDomain, MixedRadixEvaluationDomain, GeneralEvaluationDomain);
+    aux_field!(zoo::Gold, "Gold", 128; Radix2EvaluationDomain, GeneralEvaluationDomain);
+    aux_field!(zoo::T17, "T17", 128; Radix2EvaluationDomain);
+    aux_field!(zoo::X3_2, "X3_2", 128; MixedRadixEvaluationDomain, GeneralEvaluationDomain);
+    aux_field!(zoo::Y3_2, "Y3_2", 256; MixedRadixEvaluationDomain);
+    aux_field!(ark_mnt4_298::Fq, "mnt4_298.Fq", 100; MixedRadixEvaluationDomain);
+    aux_field!(ark_test_curves::bn384_small_two_adicity::Fq, "test.bn384.Fq", 80; GeneralEvaluationDomain);
+    // large domains (large.rs): above the 1024-entry switch of the radix-2 butterflies, mixed-radix sizes of that magnitude
+    {
+        use ark_test_curves::bls12_381::Fr;
+        large::large_rels::<zoo::Gold, Radix2EvaluationDomain<zoo::Gold>>(&mut out, "Gold", tier, 2048, 1 << 16, 1 << 18, 40);
+        large::large_rels::<zoo::Gold, GeneralEvaluationDomain<zoo::Gold>>(&mut out, "Gold", tier, 2048, 1 << 15, 1 << 17, 20);
+        large::large_rels::<Fr, Radix2EvaluationDomain<Fr>>(&mut out, "test.bls12_381.Fr", tier, 2048, 1 << 14, 1 << 16, 24);
+        large::large_rels::<Fr, GeneralEvaluationDomain<Fr>>(&mut out, "test.bls12_381.Fr", tier, 2048, 1 << 13, 1 << 15, 12);
+        large::large_rels::<Fr, MixedRadixEvaluationDomain<Fr>>(&mut out, "test.bls12_381.Fr", tier, 1100, 3 << 11, 3 << 14, 24);
+        type BnFq = ark_test_curves::bn384_small_two_adicity::Fq;
+        large::large_rels::<BnFq, MixedRadixEvaluationDomain<BnFq>>(&mut out, "test.bn384.Fq", tier, 1100, 9 << 9, 9 << 12, 16);
+        large::large_rels::<ark_mnt4_298::Fq, MixedRadixEvaluationDomain<ark_mnt4_298::Fq>>(&mut out, "mnt4_298.Fq", tier, 1100, 49 << 6, 49 << 9, 16);
+    }
     // FftField is also implemented for the quadratic / cubic extension templates (roots embedded from the base field)
     ext::field_rels::<ark_test_curves::mnt6_753::Fq3>(&mut out, "test.mnt6_753.Fq3", tier, 60);
     ext::field_rels::<ark_mnt4_298::Fq2>(&mut out, "mnt4_298.Fq2", tier, 120);
@@ -834,12 +875,14 @@ fn relations(tier: Tier) -> Vec<Rel> {
 fn main() {
     vh_core::engine::main(PropSpec {
         id: "C07",
-        rule: "A case is a domain kind (Radix2 / MixedRadix / General) over one of 20 prime fields and 4 extension fields (mnt6_753 Fq3, mnt4_298 Fq2, mnt6_298 Fq3, bls12_381 Fq2: FftField constants, get_root_of_unity, domains up to size 120 with fft vs Horner) (BLS12-381 Fr, Goldilocks, toy fields of two-adicity 1, 4, 5, 16, five toy mixed-radix fields whose whole {2^a q^b} lattice is walked, and the shipped fields that declare a small subgroup), a requested size n that rounds up to a constructible size (every n in 0..=bound is also enumerated for new(n)), a coset offset in {1, GENERATOR, tape-chosen, an element of the subgroup}, a coefficient/evaluation vector (uniform, half zero, monomial, all ones, small values, edge values in front) whose length is drawn around the degree-aware threshold (size/4, size/4+1), size/2±1, 0, 1, size-1, size, or an evaluation point (tape, 0, 1, a domain element, the offset, a subgroup element). Oracles: Horner evaluation at h·g^i (g^i by repeated multiplication), product definitions of the vanishing polynomial and of the Lagrange coefficients, brute-force minimal size over all (a,b), exact element order. Non-trivial: size >= 4 and 1 <= len <= size with a non-zero entry (transforms); size >= 4 (vanishing/Lagrange); n >= 2 (construction, roots). distinct = distinct decoded choice sequences.",
+        rule: "A case is a domain kind (Radix2 / MixedRadix / General) over one of 20 prime fields and 4 extension fields (mnt6_753 Fq3, mnt4_298 Fq2, mnt6_298 Fq3, bls12_381 Fq2: FftField constants, get_root_of_unity, domains up to size 120 with fft vs Horner) (BLS12-381 Fr, Goldilocks, toy fields of two-adicity 1, 4, 5, 16, five toy mixed-radix fields whose whole {2^a q^b} lattice is walked, and the shipped fields that declare a small subgroup), a requested size n that rounds up to a constructible size (every n in 0..=bound is also enumerated for new(n)), a coset offset in {1, GENERATOR, tape-chosen, an element of the subgroup}, a coefficient/evaluation vector (uniform, half zero, monomial, all ones, small values, edge values in front) whose length is drawn around the degree-aware threshold (size/4, size/4+1), size/2±1, 0, 1, size-1, size, or an evaluation point (tape, 0, 1, a domain element, the offset, a subgroup element). Oracles: Horner evaluation at h·g^i (g^i by repeated multiplication), product definitions of the vanishing polynomial and of the Lagrange coefficients, brute-force minimal size over all (a,b), exact element order. Non-trivial: size >= 4 and 1 <= len <= size with a non-zero entry (transforms); size >= 4 (vanishing/Lagrange); n >= 2 (construction, roots). Large regime (own relations fft-large / ifft-large): radix-2 and general domains of size 2^11..2^16 over Goldilocks and 2^11..2^14 over BLS12-381 Fr (thorough 2^18 / 2^16), i.e. above the 1024-entry switch inside the radix-2 butterflies, and mixed-radix domains of size 1536..6144 (2^a 3^b over Fr), 1152..4608 (2^a 3^b over bn384 Fq), 1568..3136 (2^a 7^b over mnt4_298 Fq), pure powers of two included (they take the bit-reversal branch of the mixed-radix code), with the same offsets, input lengths around size/4, size/2, size-1, size, powers of two; oracle = a linear functional over all outputs, sum_i out[i] r^i = sum_j c_j h^j (r^n-1)/(r g^j-1) for a tape-chosen r outside the subgroup (a wrong output vector satisfies it for fewer than n values of r), plus Horner evaluation at 16 output positions, plus the exact round trip. Relation lagrange-large on the same domains: elements() against the chain h*g^i, Z(tau) against the product over all elements, evaluate_all_lagrange_coefficients(tau) through sum_i L_i(tau) e_i^k = tau^k for k = 0, 1, n-1 (every entry involved), 8 entries by the product definition, the whole unit vector for tau in the domain. Remaining entry points (relations aux / subdomain on 7 field shapes): ifft of an evaluation vector shorter than the domain interpolates e||0 (Horner at every element), mul_polynomials_in_evaluation_domain = pointwise product, CanonicalSerialize/Deserialize of the domain in both modes and both spellings (size, round trip), reindex_by_subdomain(subgroup of size m | N, i) for every i against the documented order (subdomain elements first, then the rest). distinct = distinct decoded choice sequences.",
         assumptions: &[
             "prime-field arithmetic (+, *, inverse, pow) is correct (C01)",
             "the declared SMALL_SUBGROUP_BASE is prime (3, 5, 7 in all configurations used)",
             "MixedRadixEvaluationDomain over a field without a declared small subgroup is outside the documented domain (its new() panics on an unwrap) and is not generated; fft inputs longer than the domain are not generated",
             "vectors longer than 6 entries are expanded from one tape word by a fixed mixing function (pure function of the tape)",
+            "large domains: the linear functional misses a wrong transform with probability < size/|F| (|F| >= 2^64) over the tape-chosen r; the 16 sampled positions and the round trip are exact",
+            "filter_polynomial / evaluate_filter_polynomial are outside the statement (not asserted; see NOTES.md, Observations); reindex_by_subdomain is generated only for a subgroup of the domain (sizes dividing, both offsets 1), as its documentation assumes",
         ],
         relations,
     })
